@@ -48,7 +48,7 @@ TIME_CAP = {"quick": 900, "thorough": 3000}
 L3 = ["lines", "crlf", "ragged"]
 L6 = ["lines", "crlf", "ragged", "vtff", "plain", "tight"]
 BOUNDS = {
-    "quick": dict(spaces=[("full", 1, 2, 3, L6), ("full", 3, 3, 1, L3), ("core", 3, 3, 3, L3), ("core", 4, 4, 2, L3)], target=1500),
+    "quick": dict(spaces=[("full", 1, 2, 3, L6), ("full", 3, 3, 1, L3), ("core", 3, 3, 3, L3), ("core", 4, 4, 2, L3)], target=500),
     "thorough": dict(spaces=[("full", 1, 3, 3, L6), ("full", 4, 4, 1, L3), ("core", 4, 4, 3, L6), ("core", 5, 5, 2, L3)], target=4000),
 }
 
